@@ -346,6 +346,9 @@ pub const ENTRIES: &[Entry] = &[
     e!("predecessor_tree_search", FIX, Args::XY),
     e!("predecessor_tree_search_by", FIX, Args::XY, cb),
     e!("predecessor_tree_user_built", &[L], Args::XY),
+    // clone a traversal (before and in the middle of the search) and advance original and clone
+    e!("traversal_clone", ALL, Args::X),
+    e!("dijkstra_clone", &[WU], Args::X),
     e!("prng", &[L], Args::None),
     // generated call sequences: (x, y, cb, t) only encode the sequence's seed
     e!("seq", UNW, Args::XY),
@@ -1005,6 +1008,44 @@ pub fn body(p: &Prog) -> u64 {
             t2[0] = Some(0);
             a + b + t2.search(0, 0).map_or(0, |w| w.len()) as u64 + t2.into_iter().count() as u64
         }
+        "traversal_clone" => on!(p, d, [L, M, X, E, WI, WU], |g| {
+            macro_rules! twice {
+                ($make:expr) => {{
+                    let mut a = $make;
+                    let fresh = a.clone();
+                    let first = a.next();
+                    let mid = a.clone();
+                    let _ = first;
+                    a.count() + mid.count() + fresh.count()
+                }};
+            }
+            twice!(Bfs::new(&g, [x].into_iter()))
+                + twice!(BfsDist::new(&g, [x].into_iter()))
+                + twice!(BfsPred::new(&g, [x].into_iter()))
+                + twice!(Dfs::new(&g, [x].into_iter()))
+                + twice!(DfsDist::new(&g, [x].into_iter()))
+                + twice!(DfsPred::new(&g, [x].into_iter()))
+                + BfsPred::new(&g, [x].into_iter()).clone().predecessors().pred.len()
+                + BfsPred::new(&g, [x].into_iter()).clone().cycles().len()
+                + BfsDist::new(&g, [x].into_iter()).clone().distances().len()
+                + DfsPred::new(&g, [x].into_iter()).clone().predecessors().pred.len()
+        }),
+        "dijkstra_clone" => on!(p, d, [WU], |g| {
+            macro_rules! twice {
+                ($make:expr) => {{
+                    let mut a = $make;
+                    let fresh = a.clone();
+                    let _ = a.next();
+                    let mid = a.clone();
+                    a.count() + mid.count() + fresh.count()
+                }};
+            }
+            twice!(Dijkstra::new(&g, [x].into_iter()))
+                + twice!(DijkstraDist::new(&g, [x].into_iter()))
+                + twice!(DijkstraPred::new(&g, [x].into_iter()))
+                + DijkstraPred::new(&g, [x].into_iter()).clone().predecessors().pred.len()
+                + DijkstraDist::new(&g, [x].into_iter()).clone().distances().len()
+        }),
         "seq" => {
             let xi = IDS.iter().position(|i| *i == p.x).unwrap() as u64;
             let yi = IDS.iter().position(|i| *i == p.y).unwrap() as u64;
